@@ -14,7 +14,7 @@ use vpmodel::spec::{chain_from_scripts, ChainSpec};
 pub const DEF: PropDef = PropDef {
     id: "C17",
     level: "exploration",
-    rule: "chains of 40..400 one-transaction blocks spread over 1..300 blk files in generated ways: disjoint height spans, overlapping spans (a window of k files active at a time), two or three files interleaved in height, random assignment; optional --start/--end inside a file; 40% of the directories are XOR-obfuscated; runs at verbosity 0, -v, -vv and -vvv (logging must not open or keep files). Oracle 1 (descriptor limit): N0 := smallest RLIMIT_NOFILE under which the single-file layout of the same chain and callback succeeds (binary search); the multi-file layout must succeed under N0 + (w-1), w = the model's maximum, over processed heights h, of the number of files that were touched at or before h and still hold a block of height >= h, and produce the same output. Oracle 2 (trace): under strace the number of simultaneously open blk*.dat descriptors never exceeds w, and every block is still delivered after a file was closed and reopened. Non-trivial = more blk files than the descriptor limit N0+(w-1) under which the run had to succeed, with w <= 3; distinct by layout hash.",
+    rule: "chains of 40..400 one-transaction blocks spread over 1..300 blk files in generated ways: disjoint height spans, overlapping spans (a window of k files active at a time), two or three files interleaved in height, random assignment; optional --start/--end inside a file; 40% of the directories are XOR-obfuscated; runs at verbosity 0, -v, -vv and -vvv (logging must not open or keep files). Oracle 1 (descriptor limit): N0 := smallest RLIMIT_NOFILE under which the single-file layout of the same chain and callback succeeds (binary search); the multi-file layout must succeed under N0 + (w-1), w = the model's maximum, over processed heights h, of the number of files that were touched at or before h and still hold a block of height >= h, and produce the same output. Oracle 2 (trace): under strace the number of simultaneously open blk*.dat descriptors never exceeds w, and every block is still delivered after a file was closed and reopened. Non-trivial = more blk files than the descriptor limit N0+(w-1) under which the run had to succeed, with w <= 3; distinct by layout hash. 35 % of the layouts end every blk file that does not hold the tip with a stale sibling (data-bearing index record that loses its height) of the next height; such a block counts as content of its file in the bound.",
     assumptions: &["the descriptors the tool needs besides blk files (LevelDB, dump files, stdio) do not depend on the blk layout: calibrated per case on the single-file layout"],
     run,
     replay,
@@ -46,12 +46,16 @@ pub struct Case {
     /// -v / -vv / -vvv: logging must not change which files are open
     #[serde(default)]
     pub verbose: u8,
+    /// every blk file that does not hold the tip ends with a stale sibling (status VALID_TRANSACTIONS|HAVE_DATA, hash sorting
+    /// before the active block's) of the block that follows the file's highest active block - a lost race at the file boundary
+    #[serde(default)]
+    pub stale_tails: bool,
 }
 
 pub fn strategy(tier: Tier) -> BS<Case> {
     let maxb = if tier == Tier::Quick { 260u16 } else { 600 };
-    (40u16..maxb, prop_oneof![1 => 1u16..4, 6 => 30u16..300], prop_oneof![4 => Just(Shape::Disjoint), 3 => (2u8..4).prop_map(Shape::Overlap), 3 => (2u8..4).prop_map(Shape::Interleave), 1 => proptest::collection::vec(any::<u16>(), 4..40).prop_map(Shape::Random)], proptest::sample::select(vec![Callback::CsvDump, Callback::SimpleStats, Callback::UnspentCsvDump]), proptest::option::weighted(0.3, any::<u16>()), proptest::option::weighted(0.3, any::<u16>()), any::<bool>(), proptest::bool::weighted(0.4), prop_oneof![5 => Just(0u8), 1 => Just(1u8), 2 => Just(2u8), 1 => Just(3u8)])
-        .prop_map(|(nblocks, nfiles, shape, cb, start, end, reverse_order, xor, verbose)| Case { nblocks, nfiles: nfiles.min(nblocks), shape, cb, start, end, reverse_order, xor, verbose })
+    (40u16..maxb, prop_oneof![1 => 1u16..4, 6 => 30u16..300], prop_oneof![4 => Just(Shape::Disjoint), 3 => (2u8..4).prop_map(Shape::Overlap), 3 => (2u8..4).prop_map(Shape::Interleave), 1 => proptest::collection::vec(any::<u16>(), 4..40).prop_map(Shape::Random)], proptest::sample::select(vec![Callback::CsvDump, Callback::SimpleStats, Callback::UnspentCsvDump]), proptest::option::weighted(0.3, any::<u16>()), proptest::option::weighted(0.3, any::<u16>()), any::<bool>(), proptest::bool::weighted(0.4), (prop_oneof![5 => Just(0u8), 1 => Just(1u8), 2 => Just(2u8), 1 => Just(3u8)], proptest::bool::weighted(0.35)).prop_map(|(v, st)| v | if st { 4 } else { 0 }))
+        .prop_map(|(nblocks, nfiles, shape, cb, start, end, reverse_order, xor, verbose)| Case { nblocks, nfiles: nfiles.min(nblocks), shape, cb, start, end, reverse_order, xor, verbose: verbose & 3, stale_tails: verbose & 4 != 0 })
         .boxed()
 }
 
@@ -95,10 +99,15 @@ fn layout(c: &Case) -> LayoutSpec {
 
 /// the model's bound: max over processed heights h of #files touched at or before h (within the
 /// range) that still hold a block of height >= h
-fn width(files: &[usize], s: usize, e: usize) -> usize {
+fn width(files: &[usize], s: usize, e: usize, stale: &[(usize, usize)]) -> usize {
     let mut maxh: HashMap<usize, usize> = HashMap::new();
     for (i, f) in files.iter().enumerate() {
         maxh.insert(*f, i);
+    }
+    // a stale block counts as content of its file (the lenient reading of 'still holds a block of a height yet to come')
+    for (f, i) in stale {
+        let m = maxh.entry(*f).or_insert(*i);
+        *m = (*m).max(*i);
     }
     let mut touched: BTreeMap<usize, ()> = BTreeMap::new();
     let mut w = 0;
@@ -155,8 +164,32 @@ pub fn check(c: &Case) -> Verdict {
     // 2. multi-file layout under N0 + (w - 1)
     let l = layout(c);
     let files: Vec<usize> = (0..nb).map(|i| l.file_of(i)).collect();
-    let wd = width(&files, s as usize, e as usize);
     let mut plan2 = l.to_plan(&built);
+    let mut stale: Vec<(usize, usize)> = Vec::new();
+    if c.stale_tails {
+        let mut last: BTreeMap<usize, usize> = BTreeMap::new();
+        for (i, f) in files.iter().enumerate() {
+            last.insert(*f, i);
+        }
+        for (f, i) in last {
+            if i + 1 < nb {
+                let comp = crate::c04::competitor(&built.blocks[i + 1].1, built.blocks[i].1.hash(), false, f as u32);
+                if comp.hash() >= built.blocks[i + 1].1.hash() {
+                    continue; // no earlier-sorting hash found: the open finding D7 would interfere
+                }
+                plan2.recs.push(vpmodel::datadir::rec_for(&comp, built.blocks[i + 1].0, vpmodel::datadir::VALID_TRANSACTIONS | vpmodel::datadir::HAVE_DATA));
+                let rec = Some(plan2.recs.len() - 1);
+                let name = vpmodel::datadir::blk_name(l.files[f].number, l.files[f].pad);
+                if let Some(pf) = plan2.files.iter_mut().find(|pf| pf.name == name) {
+                    pf.segs.push(vpmodel::datadir::Seg::Blk { bytes: comp.ser(), rec, magic: built.coin.magic() });
+                    stale.push((f, i + 1));
+                } else {
+                    plan2.recs.pop();
+                }
+            }
+        }
+    }
+    let wd = width(&files, s as usize, e as usize, &stale);
     let w2 = infra!(World::create("c17b", &mut plan2));
     let limit = n0 + wd as u64 - 1;
     let out = infra!(run_limit(&w2, &o, limit));
